@@ -403,7 +403,7 @@ func C19(rep *ev.Reporter, tier string) {
 	sort.Strings(ex)
 	rep.Sample(map[string]interface{}{"number_operands_every_37th": ex})
 	rep.Coverage["rule"] = "complete table: every ordered pair of number operands (12 Go kinds x every boundary value exactly representable in the kind and inside the int64 range: 0, +-1, +-2, width limits and their neighbours, +-(2^53+-1), Max/MinInt64, 2^24(+1), fractions, 1e-9, +-MaxFloat32) x wrapper pairs (T, *T, **T, interface{}), every pair of 9 strings, 2 bools, 13 time values (same instant in UTC / fixed zone / Local / with monotonic reading / stripped, +-1ns, zero, epoch) - all six operators each way on pkg.Evaluate*; states = operand pairs, transitions = operator applications. Laws: trichotomy, <= is < or ==, >= is > or ==, != is not ==, mirror under swap, and the outcome equals the comparison of the exact mathematical values (big.Rat) whenever both are exactly representable in float64 or both are integers. Plus the same laws through GRL conditions over typed fact fields (every kind pair x 3 value pairs x 6 operators, FetchMatchingRules). Non-trivial: operands of different kinds/wrappers, strings, times."
-	rep.Assumptions = append(rep.Assumptions, "uint64 values above MaxInt64 and NaN are outside the quantifier", "for int x float pairs not exactly representable in float64 only the consistency laws are judged (the documented int->float promotion is lossy there)")
+	rep.Assumptions = append(rep.Assumptions, "uint64 values above MaxInt64 are outside the quantifier; NaN operands are judged through GRL conditions only (all operators but != false)", "for int x float pairs not exactly representable in float64 only the consistency laws are judged (the documented int->float promotion is lossy there)")
 }
 
 func c19Fam(k reflect.Kind) string {
@@ -422,17 +422,17 @@ func c19Set(f *facts.Fact, field string, v float64) bool {
 	rv := reflect.ValueOf(f).Elem().FieldByName(field)
 	switch rv.Kind() {
 	case reflect.Int, reflect.Int8, reflect.Int16, reflect.Int32, reflect.Int64:
-		if v != math.Trunc(v) || rv.OverflowInt(int64(v)) {
+		if v != math.Trunc(v) || math.IsInf(v, 0) || rv.OverflowInt(int64(v)) {
 			return false
 		}
 		rv.SetInt(int64(v))
 	case reflect.Uint, reflect.Uint8, reflect.Uint16, reflect.Uint32, reflect.Uint64:
-		if v != math.Trunc(v) || v < 0 || rv.OverflowUint(uint64(v)) {
+		if v != math.Trunc(v) || math.IsInf(v, 0) || v < 0 || rv.OverflowUint(uint64(v)) {
 			return false
 		}
 		rv.SetUint(uint64(v))
 	default:
-		if rv.Kind() == reflect.Float32 && float64(float32(v)) != v {
+		if rv.Kind() == reflect.Float32 && float64(float32(v)) != v && !math.IsNaN(v) {
 			return false
 		}
 		rv.SetFloat(v)
@@ -446,6 +446,10 @@ func c19GRL(rep *ev.Reporter, tier string, report func(sig, what string, replay 
 	if tier == "quick" {
 		valuePairs = valuePairs[:6]
 	}
+	// NaN and the infinities (float fields only; c19Set refuses them for integer kinds): the consistency laws
+	// hold for them in Go - none of <, ==, > holds with a NaN operand, so <= and >= are false and != is true
+	nan, inf := math.NaN(), math.Inf(1)
+	valuePairs = append(valuePairs, [2]float64{nan, 1}, [2]float64{1, nan}, [2]float64{nan, nan}, [2]float64{inf, nan}, [2]float64{inf, inf}, [2]float64{-inf, inf}, [2]float64{1, -inf})
 	var n int64
 	type job struct{ lf, rf string }
 	var jobs []job
@@ -501,6 +505,13 @@ func c19GRL(rep *ev.Reporter, tier string, report func(sig, what string, replay 
 				cmp = 1
 			}
 			m := c19Ops{lt: o.gt, gt: o.lt, le: o.ge, ge: o.le, eq: o.eq, ne: o.ne} // mirror checked on pkg level
+			if math.IsNaN(vp[0]) || math.IsNaN(vp[1]) {
+				// unordered pair: none of <, ==, > (hence neither <= nor >=), and != holds
+				if o.lt || o.eq || o.gt || o.le || o.ge || !o.ne {
+					report("C19:grl:nan-operand:"+j.lf+"x"+j.rf, fmt.Sprintf("%s: with a NaN operand every operator but != is false in Go (and <= is < or ==, >= is > or ==, != is not ==); got %+v", id, o), map[string]interface{}{"case": id})
+				}
+				continue
+			}
 			if law := c19Laws(o, m, cmp, true); law != "" {
 				report("C19:grl:"+strings.SplitN(law, " ", 2)[0]+":"+j.lf+"x"+j.rf, fmt.Sprintf("%s: %s", id, law), map[string]interface{}{"case": id})
 			}
